@@ -248,7 +248,8 @@ func (rp *replayer) goValue(x Term, T types.Type) (string, bool) {
 			return "", false
 		}
 		es := rp.t.V.W.sortOf(u.Elem())
-		h := rp.t.elemHeap(es)
+		eT := types.Type(u.Elem())
+		h := rp.t.elemHeapT(eT, es)
 		var elems []string
 		for i := int64(0); i < cp; i++ {
 			e := sel(sel(h.at(0), slArr(x)), intLit(off+i))
